@@ -1,13 +1,18 @@
 // C16 harness: executes the real FEAT assembly code on one case per line (see FeatModel/Driver/C16.lean).
 //  scatter/gather/vscatter/vgather/banded/bgather : the real Scatter-/Gather-Axpy classes of LAFEM containers on arbitrary
 //                                           patterns, index maps and local matrices (one scatter object, many calls)
+//  asmb    : the same with SparseMatrixBCSR<Q,Index,h,w> and block-valued local matrices
 //  asm     : the real SymbolicAssembler (through a stand-in space with arbitrary DOF tables) + real CSR scatter
 //  fe      : real assemblers on real meshes/spaces (all routes, everything the oracle needs)  -> fe.hpp
+//  ops     : every operator / functional class of common_operators.hpp / common_functionals.hpp -> ops.hpp
+//  trace   : TraceAssembler facet selection (add_facet / compile / clear) -> trace_quad.cpp
 //  bg/bgsd : Burgers operator, classic assembler and domain-assembler jobs (blocked and scalar) -> burgers.hpp
 //  feasm   : the classic assembler once more, printing only the matrix (compared with the model's fold)
 #include "burgers.hpp"
+#include "ops.hpp"
 #include <kernel/lafem/sparse_matrix_banded.hpp>
 
+namespace c16 { void trace_quad(verif::Cur& c, std::ostream& o); }
 using namespace FEAT;
 using namespace c16;
 using verif::Cur;
@@ -94,6 +99,47 @@ namespace
       Index get_index(int j) const { return s.table[cell][std::size_t(j)]; }
     };
   };
+
+  // blocked local matrix: loc[i][j] is an h x w Tiny matrix
+  template<int h_, int w_>
+  struct LocMatB
+  {
+    std::vector<Tiny::Matrix<Q, h_, w_>> v; int nc;
+    LocMatB(const std::vector<Q>& vals, int nrows, int ncols) : v(std::size_t(nrows * ncols)), nc(ncols)
+    {
+      for(std::size_t k = 0; k < v.size(); ++k)
+        for(int a = 0; a < h_; ++a) for(int b = 0; b < w_; ++b) v[k][a][b] = vals[(k * std::size_t(h_) + std::size_t(a)) * std::size_t(w_) + std::size_t(b)];
+    }
+    const Tiny::Matrix<Q, h_, w_>* operator[](int i) const { return v.data() + std::size_t(i) * std::size_t(nc); }
+  };
+
+  template<int h_, int w_>
+  void run_asmb(Index kind, const TableSpace& ts, const TableSpace& ss, const std::vector<Index>& order,
+    const std::vector<Q>& alphas, const std::vector<std::vector<Q>>& locs, std::ostream& o)
+  {
+    typedef LAFEM::SparseMatrixBCSR<Q, Index, h_, w_> BM;
+    BM m;
+    if(kind == 1)
+      Assembly::SymbolicAssembler::assemble_matrix_std1(m, ts);
+    else
+      Assembly::SymbolicAssembler::assemble_matrix_std2(m, ts, ss);
+    m.format();
+    const TableSpace& cs = (kind == 1) ? ts : ss;
+    {
+      typename BM::ScatterAxpy sc(m);
+      for(Index cell : order)
+      {
+        LocMatB<h_, w_> lm(locs[cell], int(ts.table[cell].size()), int(cs.table[cell].size()));
+        sc(lm, ListMap(ts.table[cell]), ListMap(cs.table[cell]), alphas[cell]);
+      }
+    }
+    o << "MB " << m.rows() << " " << m.columns() << " ";
+    show_arr(o, m.row_ptr(), m.rows() + 1); o << " ";
+    show_arr(o, m.col_ind(), m.used_elements());
+    o << " " << h_ << " " << w_ << " " << m.used_elements() * Index(h_ * w_);
+    for(Index k = 0; k < m.used_elements(); ++k)
+      for(int a = 0; a < h_; ++a) for(int b = 0; b < w_; ++b) o << " " << m.val()[k][a][b];
+  }
 
   void show_matrix(std::ostream& o, const MatrixQ& m)
   {
@@ -225,6 +271,33 @@ static void handle(const verif::Tokens& t, std::ostream& o)
     else if(shape == "tria") fe_tria(c, o, full);
     else if(shape == "hexa") fe_hexa(c, o, full);
     else if(shape == "tetra") fe_tetra(c, o, full);
+    else o << "BAD-OP";
+  }
+  else if(op == "asmb")
+  {
+    Index kind = c.idx(), nT = c.idx(), nS = c.idx(), bh = c.idx(), bw = c.idx(), nc = c.idx();
+    TableSpace ts{TableMesh{nc}, nT, {}}, ss{TableMesh{nc}, nS, {}};
+    for(Index i = 0; i < nc; ++i) ts.table.push_back(rdidx(c));
+    for(Index i = 0; i < nc; ++i) ss.table.push_back(rdidx(c));
+    auto order = rdidx(c);
+    std::vector<Q> alphas; std::vector<std::vector<Q>> locs;
+    for(Index i = 0; i < nc; ++i) { alphas.push_back(rdq(c)); locs.push_back(rdqlist(c)); }
+    if(bh == 2 && bw == 2) run_asmb<2, 2>(kind, ts, ss, order, alphas, locs, o);
+    else if(bh == 2 && bw == 3) run_asmb<2, 3>(kind, ts, ss, order, alphas, locs, o);
+    else if(bh == 3 && bw == 2) run_asmb<3, 2>(kind, ts, ss, order, alphas, locs, o);
+    else if(bh == 3 && bw == 3) run_asmb<3, 3>(kind, ts, ss, order, alphas, locs, o);
+    else if(bh == 2 && bw == 1) run_asmb<2, 1>(kind, ts, ss, order, alphas, locs, o);
+    else if(bh == 1 && bw == 3) run_asmb<1, 3>(kind, ts, ss, order, alphas, locs, o);
+    else o << "BAD-OP";
+  }
+  else if(op == "trace")
+    trace_quad(c, o);
+  else if(op == "ops")
+  {
+    std::string shape = c.str();
+    if(shape == "quad") ops_quad(c, o);
+    else if(shape == "tria") ops_tria(c, o);
+    else if(shape == "hexa") ops_hexa(c, o);
     else o << "BAD-OP";
   }
   else if(op == "bg" || op == "bgsd")
